@@ -15,7 +15,8 @@ def run(ctx, clause, scenarios, nontrivial=nontrivial_default, names_for=None, w
     assert len(set(ids)) == len(ids), "scenario ids must be unique"
     # ---- Layer A: exhaustive exploration of the design on exactly these scenarios
     if model:
-        ms = scenarios if model_limit is None else scenarios[:model_limit]
+        ms = [s for s in scenarios if not s.get("nomodel")]
+        ms = ms if model_limit is None else ms[:model_limit]
         r = nsplane.model_check(ms, workers=8)
         ctx.tlc("XcpNS over %d scenarios (all walk orders x all operation orders)" % len(ms), r)
         if r.violated:
